@@ -1746,3 +1746,58 @@ Qed.
 
 
 
+
+Lemma hd_rev {X} (l : list X) d : hd d (rev l) = last l d.
+Proof.
+  induction l as [|x t IH] using rev_ind; [reflexivity|]. rewrite rev_app_distr. simpl. now rewrite last_app_ne by discriminate.
+Qed.
+Lemma last_rev {X} (l : list X) d : last (rev l) d = hd d l.
+Proof. rewrite <- (rev_involutive l) at 2. now rewrite hd_rev. Qed.
+
+Lemma cnt_all_inv s l : cnt s l = length l -> Forall (fun x => ist x = s) l.
+Proof.
+  induction l as [|x t IH]; intros H; [constructor|]. rewrite cnt_cons in H. simpl in H.
+  assert (Hle : cnt s t <= length t) by (unfold cnt; rewrite <- (map_length ist t); apply count_st_le).
+  destruct (status_eqb s (ist x)) eqn:E; [|lia]. apply status_eqb_eq in E. constructor; [now symmetry|]. apply IH. lia.
+Qed.
+
+(* Stage C: Q.set_contiguous after the two passes keeps every good frontier (read forwards or backwards) *)
+Theorem q_cases_complete v T (d : bool) :
+  2 <= length T -> Forall (GoodItem v) T -> Interval (fun s => In v s) (flat_map ib (if d then T else rev T)) ->
+  exists t' st, q_cases v (map ic T) (map ist T) = Ok (t', st) /\
+                Ord t' (flat_map ib (if d then T else rev T)) /\ (st = SPartU -> U2 v t').
+Proof.
+  intros Hn HG Hint. rewrite q_cases_body. cbv zeta. rewrite map_length.
+  change (count_st SFull (map ist T)) with (cnt SFull T).
+  destruct (status_eqb (last (map ist T) SFull) SEmpty || (status_eqb (last (map ist T) SFull) SPartA && (S (cnt SFull T) =? length T))) eqn:Eflip.
+  - (* the children are reversed *)
+    rewrite <- !map_rev.
+    assert (Hn' : 2 <= length (rev T)) by now rewrite rev_length.
+    assert (HG' : Forall (GoodItem v) (rev T)) by now apply Forall_rev.
+    assert (Hint' : Interval (fun s => In v s) (flat_map ib (if negb d then rev T else rev (rev T)))).
+    { rewrite rev_involutive. destruct d; exact Hint. }
+    assert (Hres : exists t' st, q_body v (map ic (rev T)) (map ist (rev T)) = Ok (t', st) /\
+                     Ord t' (flat_map ib (if negb d then rev T else rev (rev T))) /\ (st = SPartU -> U2 v t')).
+    { apply (q_body_complete v (rev T) (negb d) Hn' HG' Hint').
+      - rewrite map_rev, hd_rev, last_rev. apply orb_true_iff in Eflip. destruct Eflip as [E|E].
+        + left. now apply status_eqb_eq.
+        + right. apply andb_true_iff in E. destruct E as [E1 E2]. apply status_eqb_eq in E1. apply Nat.eqb_eq in E2.
+          (* all the other children are full *)
+          destruct T as [|x0 T0] using rev_ind; [simpl in Hn; lia|]. clear IHT0.
+          rewrite last_map_app_cons in E1. rewrite cnt_app, cnt_cons, E1, cnt_nil, app_length in E2. simpl in E2.
+          assert (HF : Forall (fun x => ist x = SFull) T0) by (apply cnt_all_inv; lia).
+          rewrite app_length in Hn. simpl in Hn. destruct T0 as [|y T0']; [simpl in Hn; lia|]. inversion HF; subst. simpl. congruence.
+      - rewrite map_rev, hd_rev, last_rev. apply orb_true_iff in Eflip. destruct Eflip as [E|E].
+        + left. now apply status_eqb_eq.
+        + right. left. apply andb_true_iff in E. destruct E as [E1 E2]. apply status_eqb_eq in E1. apply Nat.eqb_eq in E2.
+          destruct T as [|x0 T0] using rev_ind; [simpl in Hn; lia|]. clear IHT0.
+          rewrite last_map_app_cons in E1. rewrite cnt_app, cnt_cons, E1, cnt_nil, app_length in E2. simpl in E2.
+          assert (HF : Forall (fun x => ist x = SFull) T0) by (apply cnt_all_inv; lia).
+          exists x0, (rev T0). rewrite rev_app_distr. simpl. repeat split; auto. now apply Forall_rev. }
+    destruct Hres as (t' & st & E & Ho & HU). exists t', st. split; [exact E|]. split; [|exact HU].
+    rewrite rev_involutive in Ho. destruct d; exact Ho.
+  - apply (q_body_complete v T d Hn HG Hint).
+    + right. apply orb_false_iff in Eflip. destruct Eflip as [E _]. intros H. rewrite H in E. discriminate.
+    + right. right. apply orb_false_iff in Eflip. destruct Eflip as [_ E]. intros [H1 H2].
+      rewrite H1, H2, Nat.eqb_refl in E. discriminate.
+Qed.
